@@ -73,3 +73,24 @@ let read_lines (path : string) : string list =
     | l -> go (l :: acc)
     | exception End_of_file -> close_in ic; List.rev acc in
   go []
+
+(* FNV-1a 64 and the generated-bytes token, mirroring harness/src/lib.rs *)
+let fnv64_ints (data : int list) : int64 =
+  List.fold_left (fun h b -> Int64.mul (Int64.logxor h (Int64.of_int b)) 0x100000001b3L) 0xcbf29ce484222325L data
+let digest_tok_ints (data : int list) : string =
+  let len = List.length data in
+  if len <= 64 then
+    Printf.sprintf "%d:x%s" len (String.concat "" (List.map (Printf.sprintf "%02x") data))
+  else Printf.sprintf "%d:h%016Lx" len (fnv64_ints data)
+let expand_bytes_ints (tok : string) : int list =
+  List.concat_map (fun part ->
+      if String.length part > 0 && part.[0] = 'g' then begin
+        match String.split_on_char ',' (String.sub part 1 (String.length part - 1)) with
+        | [l; sd] ->
+          let len = int_of_string l in
+          let s = ref (Int64.of_string ("0u" ^ sd)) in
+          List.init len (fun _ ->
+              s := Int64.add (Int64.mul !s 6364136223846793005L) 1442695040888963407L;
+              97 + Int64.to_int (Int64.unsigned_rem (Int64.shift_right_logical !s 33) 26L))
+        | _ -> failwith "bad g token"
+      end else List.map int_of_n (bytes_of_tok part)) (String.split_on_char '+' tok)
